@@ -47,6 +47,7 @@ func runXferJob(t *testing.T, j *Job, r *evid.Run, oracle oracleFn) *JobRes {
 	e := &Explorer{T: t, Policy: sc.Policy, FsPoints: sc.FsPoints, SelectAlts: sc.SelectAlts, Body: body, MaxExecs: j.MaxExecs}
 	out := &JobRes{}
 	sampled := false
+	visited := 0
 	e.Visit = func(x *Exec, prefix []int) {
 		res, _ := x.Res.(*XferRes)
 		r.Evaluations.Add(1)
@@ -78,6 +79,17 @@ func runXferJob(t *testing.T, j *Job, r *evid.Run, oracle oracleFn) *JobRes {
 			r.Sample(map[string]any{"scenario": sc.String(), "deviations": dev, "steps": len(x.Choices), "schedule_head": head(x.Trace, 12), "packets": head(res.Log, 8)})
 		}
 		if len(viols) == 0 {
+			// determinism is asserted, not assumed: every 300th passing execution is replayed from its own
+			// choice sequence and must release exactly the same (thread, operation) sequence
+			visited++
+			if visited%300 == 1 {
+				y := RunOne(t, sc.Policy, sc.FsPoints, sc.SelectAlts, x.Choices, x.Trace, body)
+				r.Add("replays_checked", 1)
+				if y.Diverged != "" || len(y.Trace) != len(x.Trace) {
+					r.Add("divergences", 1)
+					out.Diverged = append(out.Diverged, fmt.Sprintf("replay of a passing schedule diverged (%s): %s (len %d vs %d)", sc, y.Diverged, len(y.Trace), len(x.Trace)))
+				}
+			}
 			return
 		}
 		// believe a violation only if the same schedule reproduces it
